@@ -419,15 +419,27 @@ pub fn gen_cfgs(thorough: bool, n_ops: usize) -> Vec<GenCfg> {
         with_exit: false,
         three_way: false,
     });
+    if !thorough {
+        // quick: three blocks with two instructions, restricted to the five plain assignments (thorough covers this
+        // shape with the whole alphabet)
+        v.push(GenCfg { max_blocks: 3, max_instrs: 2, max_per_block: 2, n_ops: 5.min(n_ops), n_guards: 1, all_entries: false, cond_edges: false, with_exit: false, three_way: false });
+    }
     v
+}
+
+/// C12's own alphabet: the shared one plus an indirect branch whose target reads a scalar (a use like any other)
+fn alphabet_c12() -> Alphabet {
+    let mut a = alphabet();
+    a.ops.push(il::Operation::branch(E::zext(64, E::scalar(il::scalar("y", 8))).unwrap()));
+    a
 }
 
 fn run(ctx: &Ctx) -> Acc {
     let mut acc = Acc::new();
-    let alpha = alphabet();
+    let alpha = alphabet_c12();
     for (ci, cfg) in gen_cfgs(ctx.tier.thorough(), alpha.ops.len()).iter().enumerate() {
         gen::for_each(cfg, |n, spec| {
-            if ci == 1 && spec.n() < 3 {
+            if ci >= 1 && spec.n() < 3 {
                 return true;
             }
             if !ctx.mine(n) {
@@ -447,6 +459,6 @@ fn run(ctx: &Ctx) -> Acc {
 
 fn replay(case: &Value) -> Acc {
     let mut acc = Acc::new();
-    check(&mut acc, &ProgSpec::from_json(&case["spec"]), &alphabet());
+    check(&mut acc, &ProgSpec::from_json(&case["spec"]), &alphabet_c12());
     acc
 }
